@@ -179,6 +179,10 @@ def run(model, col, tier, share=True):
         else:
             col.ok("R03.1", f"{key}::'{name}' bound once", f"'{name}' is bound before the interpreter loop and only subscripted inside it")
     # ---- R03.2 ---------------------------------------------------------
+    # locals of an activation are its own objects all the way down: a declaration creates a freshly built instance (= R01.4)
+    from . import c01 as _c01_32
+
+    _c01_32.check_new_variable_fresh(col, vm, "R03.2")
     # the value map: the name the constants are registered in / that arms index by instruction.Reference
     stored_in_loop = set()
     for n in ast.walk(vm.loop):
@@ -459,6 +463,46 @@ def run(model, col, tier, share=True):
     ncov = check_handler_coverage(model, _Dispatch(model), col, "R03.5", model.cls("nsl/passes/AddImplicitCasts.py", "AddImplicitCastVisitor"), "nsl/passes/AddImplicitCasts.py",
                                   "expressions below it never get their implicit conversions - `h(g(2.5))` passes 2.5 to g's int parameter while `g(2.5)` alone passes 2")
     col.floor("R03.5", "explicit handlers of the cast pass", ncov, 4)
+    # an argument is converted exactly when its (component) type differs from the parameter's - int -> uint included: the VM's
+    # and the wasm back end's conversions are not the identity there (abs / wrap), and the callee is compiled for the parameter type
+    import copy as _copy35
+    from ..sem import inline_pure_calls as _ipc35, local_env as _le35c, rtext as _rt35c
+    from ..paths import calls_on_path as _cop35
+
+    aic = model.cls("nsl/passes/AddImplicitCasts.py", "AddImplicitCastVisitor")
+    vce0 = aic.own_method("v_CallExpression")
+    vce = _copy35.deepcopy(vce0)
+    for n_ in ast.walk(vce):
+        if isinstance(n_, ast.If):
+            n_.test = _ipc35(aic, n_.test, vce.args.args[0].arg)
+    env35 = _le35c(vce, allow_impure=True)
+    zl = [l for l in ast.walk(vce) if isinstance(l, ast.For) and isinstance(l.iter, ast.Call) and dotted(l.iter.func) == "zip" and isinstance(l.target, ast.Tuple) and len(l.target.elts) == 2]
+    col.floor("R03.5", "argument/parameter loops in the cast pass's call handler", len(zl), 1)
+    for lp in zl[:1]:
+        an, en = unparse(lp.target.elts[0]), unparse(lp.target.elts[1])
+        eqk = (f"{an}.GetType().GetComponentType() == {en}.GetComponentType()", f"{en}.GetComponentType() == {an}.GetType().GetComponentType()",
+               f"{an}.GetType() == {en}", f"{en} == {an}.GetType()")
+        why35 = None
+        seen_c = seen_k = False
+        for evs, status in paths(lp.body, loop_iters=(1,)):
+            a = cond_atoms(evs, env35)
+            eq = next((a[k] for k in eqk if k in a), None)
+            for c in _cop35(evs):
+                if last_attr(c) == "append" and c.args:
+                    v = c.args[0]
+                    v = env35.get(v.id, v) if isinstance(v, ast.Name) else v
+                    if isinstance(v, ast.Call) and last_attr(v) == "CastExpression":
+                        seen_c = True
+                        if eq is not False:
+                            why35 = why35 or f"a conversion is inserted under {[(k[:50], x) for k, x in a.items()][:2]}, not under `argument type != parameter type`"
+                    elif unparse(v) == an:
+                        seen_k = True
+                        if eq is not True:
+                            why35 = why35 or f"an argument is passed unconverted under {[(k[:60], x) for k, x in a.items()][:2]}, which does not establish that its type equals the parameter's"
+        if not (seen_c and seen_k):
+            why35 = why35 or f"conversion inserted: {seen_c}, argument kept: {seen_k}"
+        col.check(why35 is None, "R03.5", "nsl/passes/AddImplicitCasts.py::v_CallExpression cast condition", "an argument is converted exactly when its component type differs from the parameter's",
+                  f"{why35}: some arguments reach the callee with another type than its parameter (an int handed to a uint parameter is never converted)", "nsl/passes/AddImplicitCasts.py", vce0)
     # types.Function.Resolve fills __argumentTypes in declaration order
     res = model.cls(TYPES, "Function").own_method("Resolve")
     ordered_enum(res, "self.arguments", f"{TYPES}::Function.Resolve argument types", TYPES)
